@@ -381,7 +381,7 @@ fn bval(r: &mut Rng) -> BVal {
 
 pub fn bop(r: &mut Rng) -> BOp {
     let i = r.usize_below(8);
-    match r.below(30) {
+    match r.below(31) {
         0..=6 => BOp::New(bval(r)),
         7..=9 => BOp::Drop(i),
         10 => BOp::Deref(i),
@@ -400,6 +400,7 @@ pub fn bop(r: &mut Rng) -> BOp {
         26 => BOp::CmpHash(i, r.usize_below(8)),
         27 => BOp::Poll(r.below(100) as u32),
         28 => BOp::Closure(r.below(100) as u32),
+        29 => BOp::OverAligned { log2: *r.pick(&[5u8, 6, 8, 12]), seed: r.next() as u32 },
         _ => BOp::HasherBox(r.next() as u32),
     }
 }
